@@ -98,13 +98,17 @@ func genHistory(c *core.Ctx, i int, maxLen int) *history {
 	}
 	// two more special families (C09 only): a block size far above any buffer the writer may have planned for,
 	// and consecutive blocks that differ in content but agree in length and CRC-32
-	giant, twins := 0, false
+	giant, twins, exactMiB := 0, false, false
 	if j := i - 2*len(cases) - len(sizeSweep); j >= 0 && maxLen > 100 {
 		switch {
 		case j < 3:
 			giant = []int{17 << 20, 32 << 20, 24<<20 + 1}[j]
 		case j < 11:
 			twins = true
+		case j < 14:
+			// records whose encoding is exactly 1 MiB, so that blocks are exact multiples of 2^20 bytes (null codec)
+			exactMiB = true
+			giant = []int{2 << 20, 3 << 20, 4 << 20}[j-11]
 		}
 		if giant > 0 || twins {
 			for _, sc := range cases {
@@ -181,6 +185,21 @@ func genHistory(c *core.Ctx, i int, maxLen int) *history {
 		if !ok {
 			return nil
 		}
+		for try := 0; exactMiB && len(enc) != 1<<20 && try < 4; try++ {
+			n := v.FieldByName("B").Len() + (1<<20 - len(enc))
+			b := make([]byte, n)
+			for x := range b {
+				b[x] = byte(r.Uint32())
+			}
+			v.FieldByName("B").SetBytes(b)
+			if enc, ok = encodeValue(c, h.sc, codec, rs, v); !ok {
+				return nil
+			}
+		}
+		if exactMiB && len(enc) != 1<<20 {
+			c.Violate("harness", "could not size a record to exactly 1 MiB", nil)
+			return nil
+		}
 		if twins && k > 0 {
 			// patch the last four data bytes so that this record's encoding has the CRC-32 of the first one's
 			_, n1, _, _ := refavro.ReadLong(enc)
@@ -236,6 +255,10 @@ func genHistory(c *core.Ctx, i int, maxLen int) *history {
 	}
 	if r.IntN(2) == 0 {
 		h.ops = append(h.ops, histOp{flush: true})
+	}
+	if exactMiB {
+		h.comp = avro.CompressionNull
+		c.Count("exact-MiB-block-histories", 1)
 	}
 	if giant > 0 {
 		h.bs, h.bsCls = giant, "giant"
@@ -474,6 +497,10 @@ type failingWriter struct {
 	r      *rand.Rand
 	failed bool
 	err    error // the error the failing write reports (nil: errInjected)
+	// FileWriter histories: what the same FileWriter wrote to a fresh destination after the failure
+	fallback     []byte
+	fallbackErr  error
+	fallbackDone bool
 }
 
 func (w *failingWriter) Write(p []byte) (int, error) {
@@ -525,6 +552,9 @@ type callResult struct {
 }
 
 // w2 returns the failingWriter whose counters the run must consult (the one embedded in a rich writer, if any).
+// w2sink: the failingWriter that was actually driven (run copies state back into w for rich writers).
+func w2sink(w *failingWriter, rich bool) *failingWriter { return w }
+
 func w2(sink io.Writer, w *failingWriter) *failingWriter {
 	if rw, ok := sink.(*richFailingWriter); ok {
 		return &rw.failingWriter
@@ -585,6 +615,40 @@ func runFileWriterHistory(h *history, schemaJSON []byte, w *failingWriter, sink 
 		res = append(res, callResult{err: err})
 		return
 	}
+	// when the destination has failed, the caller falls back to a fresh destination with the same FileWriter
+	// (its methods take the destination as an argument): that output must be a complete, clean file
+	defer func() {
+		if !w.failed {
+			return
+		}
+		var fb bytes.Buffer
+		w.fallbackErr = func() (err error) {
+			defer func() {
+				if r := recover(); r != nil {
+					err = fmt.Errorf("panic: %v", r)
+				}
+			}()
+			if err := fw.WriteHeader(&fb); err != nil {
+				return err
+			}
+			var block []byte
+			n := 0
+			for _, op := range h.ops {
+				if op.flush {
+					if err := fw.WriteBlock(&fb, n, block); err != nil {
+						return err
+					}
+					block, n = nil, 0
+				} else {
+					block = append(block, h.encs[op.val]...)
+					n++
+				}
+			}
+			return nil
+		}()
+		w.fallback = fb.Bytes()
+		w.fallbackDone = true
+	}()
 	if call(func() error { return fw.WriteHeader(sink) }) {
 		return
 	}
@@ -741,6 +805,17 @@ func runC16(c *core.Ctx, i int) {
 			if d := maskedPrefixCheck(w.buf.Bytes(), full, pos); d != "" {
 				c.Violate("prefix", fmt.Sprintf("%s: %s [%s]", what, d, h.desc), h.rep(w.buf.Bytes()))
 				return
+			}
+			if fbw := w2sink(w, rich); fbw.fallbackDone {
+				c.Count("fallback-destinations", 1)
+				if fbw.fallbackErr != nil {
+					// a FileWriter that refuses further use after a failure is within its rights; what is not acceptable is
+					// reporting success for bytes that are not the file
+					c.Count("fallback-destinations-refused", 1)
+				} else if d := maskedPrefixCheck(fbw.fallback, full, pos); d != "" || len(fbw.fallback) != len(full) {
+					c.Violate("prefix", fmt.Sprintf("%s: the same FileWriter, used on a fresh destination afterwards, reported success but wrote %d bytes where the fault-free file has %d: %s [%s]", what, len(fbw.fallback), len(full), d, h.desc), h.rep(fbw.fallback))
+					return
+				}
 			}
 		}
 	}
